@@ -338,6 +338,53 @@ var c15SharedExcuse = map[string]string{
 func c15Shared(r *core.Report, scope []*ssa.Function) {
 	p := r.Prog
 	shared := sharedTypes(p)
+	// whatever is put into a package-level container becomes shared: the types of the values stored
+	// into package-level sync.Maps by the reachable code
+	for _, fn := range scope {
+		for _, b := range fn.Blocks {
+			for _, in := range b.Instrs {
+				c, ok := in.(*ssa.Call)
+				if !ok {
+					continue
+				}
+				sc := c.Common().StaticCallee()
+				if sc == nil || sc.Pkg == nil || sc.Pkg.Pkg.Path() != "sync" || len(c.Common().Args) < 3 {
+					continue
+				}
+				if _, isG := c.Common().Args[0].(*ssa.Global); !isG {
+					continue
+				}
+				var stored []ssa.Value
+				switch sc.Name() {
+				case "Store", "LoadOrStore", "Swap":
+					stored = append(stored, c.Common().Args[2])
+				case "CompareAndSwap":
+					if len(c.Common().Args) >= 4 {
+						stored = append(stored, c.Common().Args[3])
+					}
+				}
+				for _, v := range stored {
+					if mi, ok := v.(*ssa.MakeInterface); ok {
+						if n := core.NamedOf(mi.X.Type()); n != nil && n.Obj().Pkg() != nil && core.InRepo(n.Obj().Pkg()) {
+							if _, isStruct := n.Underlying().(*types.Struct); isStruct {
+								shared[n.Origin()] = true
+							}
+						}
+					}
+					// an interface-typed value (error): the concrete repo types that flow into it
+					if _, isIface := v.Type().Underlying().(*types.Interface); isIface {
+						for _, t := range concreteTypesOf(v, 0) {
+							if n := core.NamedOf(t); n != nil && n.Obj().Pkg() != nil && core.InRepo(n.Obj().Pkg()) {
+								if _, isStruct := n.Underlying().(*types.Struct); isStruct {
+									shared[n.Origin()] = true
+								}
+							}
+						}
+					}
+				}
+			}
+		}
+	}
 	r.RunRule("C15.shared", "nothing reachable from route finding, request/response validation, VisitJSON or schema generation stores into a shared object: every field store, element store or map update whose container is (a field of) a document-model struct, a routers.Route, a router, a pattern-tree node, a Validator or Options must be on an object created by the same activation (an allocation, a composite literal, the result of a New*/With*/Copy call made there, or a local copy such as `route := *r.routes[i]`); a store through a parameter, receiver or loaded field of such a type writes memory other goroutines read", 1, func() {
 		n := 0
 		perFn := map[string]int{}
@@ -691,4 +738,38 @@ func c15Pool(r *core.Report) {
 			r.Trivial("pool:none", "-", "the library packages use no sync.Pool")
 		}
 	})
+}
+
+// concreteTypesOf: the static types converted into the interface value v along its local definitions.
+func concreteTypesOf(v ssa.Value, depth int) []types.Type {
+	if depth > 6 {
+		return nil
+	}
+	switch x := v.(type) {
+	case *ssa.MakeInterface:
+		if _, isIface := x.X.Type().Underlying().(*types.Interface); isIface {
+			return concreteTypesOf(x.X, depth+1)
+		}
+		return []types.Type{x.X.Type()}
+	case *ssa.Phi:
+		var out []types.Type
+		for _, e := range x.Edges {
+			out = append(out, concreteTypesOf(e, depth+1)...)
+		}
+		return out
+	case *ssa.UnOp:
+		// load of a local cell (named result): the stored values
+		if al, ok := x.X.(*ssa.Alloc); ok {
+			var out []types.Type
+			for _, ref := range *al.Referrers() {
+				if st, ok := ref.(*ssa.Store); ok && st.Addr == ssa.Value(al) {
+					out = append(out, concreteTypesOf(st.Val, depth+1)...)
+				}
+			}
+			return out
+		}
+	case *ssa.ChangeInterface:
+		return concreteTypesOf(x.X, depth+1)
+	}
+	return nil
 }
